@@ -48,7 +48,6 @@ type c09Unit struct {
 	K int `json:"k,omitempty"`
 }
 
-
 // ---- query ------------------------------------------------------------------------------------
 
 type cannedRT struct {
@@ -620,34 +619,34 @@ func c09CountCheck(ctx *Ctx, pl *fwPool, idx int, n, k int) {
 	ctx.Rep.Count("unit count (executor over a mock Queryer)")
 	out, err := pl.Run(cs.fwCase)
 	if err != nil {
-		ctx.Rep.Fail(hx.Failure{Kind: "harness-error", Detail: err.Error(), Case: cs, Index: idx})
+		fwFail(ctx, hx.Failure{Kind: "harness-error", Detail: err.Error(), Case: cs, Index: idx})
 		return
 	}
 	if out.Crash != "" || out.Timeout {
-		ctx.Rep.Fail(hx.Failure{Kind: "property-fails", Detail: fmt.Sprintf("the executor CRASHED when a Queryer returned %d results for %d requests: %s", k, n, out.Crash), Case: cs, Impl: out.Crash, Index: idx})
+		fwFail(ctx, hx.Failure{Kind: "property-fails", Detail: fmt.Sprintf("the executor CRASHED when a Queryer returned %d results for %d requests: %s", k, n, out.Crash), Case: cs, Impl: out.Crash, Index: idx})
 		return
 	}
 	o := out.Res.Unit
 	if o == nil {
-		ctx.Rep.Fail(hx.Failure{Kind: "harness-error", Detail: "worker returned no unit result: " + out.Res.Err, Case: cs, Index: idx})
+		fwFail(ctx, hx.Failure{Kind: "harness-error", Detail: "worker returned no unit result: " + out.Res.Err, Case: cs, Index: idx})
 		return
 	}
 	if o.Outcome == "panic" || (k != n && o.Outcome != "error") {
-		ctx.Rep.Fail(hx.Failure{Kind: "property-fails", Detail: fmt.Sprintf("a Queryer returned %d results for %d requests and the executor answered %s %s (wrong length must be reported)", k, n, o.Outcome, o.Err), Case: cs, Impl: o, Index: idx})
+		fwFail(ctx, hx.Failure{Kind: "property-fails", Detail: fmt.Sprintf("a Queryer returned %d results for %d requests and the executor answered %s %s (wrong length must be reported)", k, n, o.Outcome, o.Err), Case: cs, Impl: o, Index: idx})
 	}
 	if ctx.Driver == nil {
 		return
 	}
 	m, err := ctx.Driver.Call(map[string]interface{}{"op": "c09.count", "n": n, "k": k})
 	if err != nil {
-		ctx.Rep.Fail(hx.Failure{Kind: "harness-error", Detail: err.Error(), Case: cs, Index: idx})
+		fwFail(ctx, hx.Failure{Kind: "harness-error", Detail: err.Error(), Case: cs, Index: idx})
 		return
 	}
 	ctx.Rep.Traces++
 	mo, _ := m["outcome"].(string)
 	mc, _ := m["class"].(string)
 	if mo != o.Outcome || (mo == "error" && mc != o.Class) {
-		ctx.Rep.Fail(hx.Failure{Kind: "model-mismatch", Detail: fmt.Sprintf("count check: implementation %s/%s (%s), model %s/%s", o.Outcome, o.Class, o.Err, mo, mc), Case: cs, Impl: o, Model: m, Index: idx})
+		fwFail(ctx, hx.Failure{Kind: "model-mismatch", Detail: fmt.Sprintf("count check: implementation %s/%s (%s), model %s/%s", o.Outcome, o.Class, o.Err, mo, mc), Case: cs, Impl: o, Model: m, Index: idx})
 	}
 }
 
@@ -658,7 +657,7 @@ func c09UnitCheck(ctx *Ctx, idx int, u c09Unit) {
 	b, _ := json.Marshal(u)
 	ctx.Rep.Case("unit/"+string(b), true)
 	fail := func(kind, detail string, impl, model interface{}) {
-		ctx.Rep.Fail(hx.Failure{Kind: kind, Detail: detail, Case: cs, Impl: impl, Model: model, Index: idx})
+		fwFail(ctx, hx.Failure{Kind: kind, Detail: detail, Case: cs, Impl: impl, Model: model, Index: idx})
 	}
 	var o unitObs
 	var req map[string]interface{}
@@ -751,7 +750,7 @@ func c09UnitCheck(ctx *Ctx, idx int, u c09Unit) {
 func c09UnitRun(ctx *Ctx, idx *int) error {
 	n := 2500
 	if ctx.Thorough() {
-		n = 40000
+		n = 25000
 	}
 	for _, gen := range []func(*hx.Rand) c09Unit{genQueryUnit, genFipUnit, genMergeUnit} {
 		for k := 0; k < n; k++ {
